@@ -65,6 +65,31 @@ def _keyelem(x):
     return x
 
 
+def kind_of(x):
+    if isinstance(x, SA):
+        return x.kind
+    if isinstance(x, (complex, _np.complexfloating)):
+        return "c"
+    if isinstance(x, Sc):
+        return "f" if is_zero(x.im) else "c"
+    if isinstance(x, _np.ndarray) and x.dtype != object:
+        return "c" if _np.iscomplexobj(x) else ("b" if x.dtype == bool else "f")
+    if isinstance(x, _np.ndarray):
+        flat = x.ravel()
+        if flat.size and all(isinstance(v, (SymBool, bool, _np.bool_)) for v in flat):
+            return "b"
+        for v in flat:
+            if isinstance(v, (complex, _np.complexfloating)) or (isinstance(v, Sc) and not is_zero(v.im)):
+                return "c"
+        return "f"
+    return "f"
+
+
+def _join_kind(*xs):
+    ks = [kind_of(x) for x in xs]
+    return "c" if "c" in ks else None
+
+
 def has_sym(x, _depth=0):
     if isinstance(x, (SA, Sc, SymBool, SM)):
         return True
@@ -83,10 +108,21 @@ class SA:
     __array_priority__ = 1000
     __array_ufunc__ = None
 
-    def __init__(self, data):
+    def __init__(self, data, kind=None):
         if isinstance(data, SA):
+            kind = kind or data._kind
             data = data.data
+        elif isinstance(data, _np.ndarray) and data.dtype != object and kind is None:
+            kind = "c" if _np.iscomplexobj(data) else ("b" if data.dtype == bool else "f")
         self.data = _np.asarray(data, dtype=object)
+        self._kind = kind
+
+    @property
+    def kind(self):
+        """'c' complex, 'f' real, 'b' boolean: explicit if known, else inferred from the elements."""
+        if self._kind is not None:
+            return self._kind
+        return kind_of(self.data)
 
     # numpy must never silently convert an SA -------------------------------------------
     def __array__(self, *a, **k):
@@ -113,14 +149,7 @@ class SA:
 
     @property
     def dtype(self):
-        for v in self.data.ravel():
-            if isinstance(v, Sc) and not is_zero(v.im):
-                return _np.dtype(complex)
-            if isinstance(v, (complex, _np.complexfloating)):
-                return _np.dtype(complex)
-        if self.data.size and all(isinstance(v, (SymBool, bool, _np.bool_)) for v in self.data.ravel()):
-            return _np.dtype(bool)
-        return _np.dtype(float)
+        return _np.dtype({"c": complex, "b": bool}.get(self.kind, float))
 
     def __len__(self):
         return len(self.data)
@@ -129,7 +158,8 @@ class SA:
         return iter([SA(x) if isinstance(x, _np.ndarray) else x for x in self.data])
 
     def __getitem__(self, k):
-        return _wrap(self.data[_key(k)])
+        r = self.data[_key(k)]
+        return SA(r, self._kind) if isinstance(r, _np.ndarray) else r
 
     def __setitem__(self, k, v):
         self.data[_key(k)] = _d(v)
@@ -142,13 +172,15 @@ class SA:
         if _is_quantity(o):
             return NotImplemented
         od = _d(o)
+        k = "c" if (self._kind == "c" or (isinstance(o, SA) and o._kind == "c") or isinstance(od, (complex, _np.complexfloating))
+                    or (isinstance(od, _np.ndarray) and od.dtype != object and _np.iscomplexobj(od))) else None
         if isinstance(od, (Sc, SymBool)):
-            return SA(_np.frompyfunc(lambda a: f(_sc(a), od), 1, 1)(self.data))
+            return SA(_np.frompyfunc(lambda a: f(_sc(a), od), 1, 1)(self.data), k)
         if isinstance(od, (list, tuple)):
             od = _np.asarray(od, dtype=object)
         if isinstance(od, _np.ndarray):
-            return SA(_np.frompyfunc(lambda a, b: f(_sc(a), b), 2, 1)(self.data, od))
-        return SA(_np.frompyfunc(lambda a: f(_sc(a), od), 1, 1)(self.data))
+            return SA(_np.frompyfunc(lambda a, b: f(_sc(a), b), 2, 1)(self.data, od), k)
+        return SA(_np.frompyfunc(lambda a: f(_sc(a), od), 1, 1)(self.data), k)
 
     def __add__(s, o):
         return s._bin(o, lambda a, b: a + b)
@@ -178,7 +210,9 @@ class SA:
         return _map(lambda x: _sc(x) ** k, s)
 
     def __neg__(s):
-        return _map(lambda x: -_sc(x), s)
+        r = _map(lambda x: -_sc(x), s)
+        r._kind = s._kind
+        return r
 
     def __pos__(s):
         return s
@@ -228,7 +262,9 @@ class SA:
 
     # methods -----------------------------------------------------------------------------
     def conjugate(s):
-        return _map(lambda x: _sc(x).conjugate(), s)
+        r = _map(lambda x: _sc(x).conjugate(), s)
+        r._kind = s._kind
+        return r
 
     conj = conjugate
 
@@ -242,13 +278,13 @@ class SA:
 
     @property
     def T(s):
-        return SA(s.data.T)
+        return SA(s.data.T, s._kind)
 
     def transpose(s, *a):
         return SA(s.data.transpose(*a))
 
     def copy(s):
-        return SA(s.data.copy())
+        return SA(s.data.copy(), s._kind)
 
     def squeeze(s, axis=None):
         r = s.data.squeeze(axis=axis)
@@ -383,7 +419,7 @@ def concatenate(arrs, axis=0, dtype=None, **k):
     arrs = list(arrs)
     if not has_sym(arrs):
         return _np.concatenate(arrs, axis=axis, dtype=dtype)
-    return SA(_np.concatenate([_obj(a) for a in arrs], axis=axis))
+    return SA(_np.concatenate([_obj(a) for a in arrs], axis=axis), _join_kind(*arrs))
 
 
 def stack(arrs, axis=0):
@@ -398,7 +434,10 @@ def exp(x):
         return _np.exp(x)
     if isinstance(x, Sc):
         return x.exp()
-    return _map(lambda v: Sc.of(v).exp(), x)
+    r = _map(lambda v: Sc.of(v).exp(), x)
+    if kind_of(x) == "c":
+        r._kind = "c"
+    return r
 
 
 def einsum(spec, *ops, **k):
@@ -485,15 +524,22 @@ def _shape_concrete(shape):
     return tuple(int(s) for s in shape)
 
 
+def _ckind(dtype):
+    try:
+        return "c" if (dtype is complex or (dtype is not None and not getattr(dtype, "_is_sym_float", False) and _np.issubdtype(_np.dtype(dtype), _np.complexfloating))) else None
+    except TypeError:
+        return None
+
+
 def zeros(shape, dtype=None, **k):
     if _is_float_dtype(dtype):
-        return SA(_np.full(_shape_concrete(shape), 0.0, dtype=object))
+        return SA(_np.full(_shape_concrete(shape), 0.0, dtype=object), _ckind(dtype))
     return _np.zeros(shape, dtype=dtype)
 
 
 def ones(shape, dtype=None, **k):
     if _is_float_dtype(dtype):
-        return SA(_np.full(_shape_concrete(shape), 1.0, dtype=object))
+        return SA(_np.full(_shape_concrete(shape), 1.0, dtype=object), _ckind(dtype))
     return _np.ones(shape, dtype=dtype)
 
 
@@ -937,10 +983,16 @@ class SM:
     """Dense dict-of-entries model of a scipy sparse array that keeps the structural pattern:
     entries[(i, j)] present <=> structurally stored (explicit zeros stay structural)."""
 
-    def __init__(self, shape, entries=None, fmt="csr"):
+    def __init__(self, shape, entries=None, fmt="csr", kind=None):
         self.shape = tuple(shape)
         self.entries = dict(entries or {})
         self.format = fmt
+        # dtype is fixed at construction (scipy semantics); 'c' complex or 'f' real
+        self.kind = kind if kind is not None else ("c" if any(kind_of(v) == "c" for v in self.entries.values()) else "f")
+
+    @property
+    def dtype(self):
+        return _np.dtype(complex if self.kind == "c" else float)
 
     @property
     def nnz(self):
@@ -951,7 +1003,7 @@ class SM:
         return 2
 
     def copy(self):
-        return SM(self.shape, self.entries, self.format)
+        return SM(self.shape, self.entries, self.format, self.kind)
 
     def get(self, i, j):
         return self.entries.get((i, j), 0.0)
@@ -993,16 +1045,16 @@ class SM:
         return self @ v
 
     def tolil(self, copy=False):
-        return SM(self.shape, self.entries, "lil")
+        return SM(self.shape, self.entries, "lil", self.kind)
 
     def tocsr(self, copy=False):
         if not copy and self.format == "csr":
             return self
-        m = SM(self.shape, self.entries, "csr")
+        m = SM(self.shape, self.entries, "csr", self.kind)
         return m
 
     def tocsc(self, copy=False):
-        return SM(self.shape, self.entries, "csc")
+        return SM(self.shape, self.entries, "csc", self.kind)
 
     def toarray(self):
         out = _np.full(self.shape, 0.0, dtype=object)
@@ -1036,19 +1088,25 @@ class SM:
         if not (len(rows) == len(cols) == len(vals)):
             raise ValueError("shape mismatch in sparse fancy assignment")
         # scipy semantics: later duplicates overwrite earlier ones; new entries are inserted
+        cast_real = self.kind == "f" and (kind_of(val) == "c")
         for r, c, v in zip(rows, cols, vals):
             r, c = int(r), int(c)
             if r < 0:
                 r += self.shape[0]
             if c < 0:
                 c += self.shape[1]
+            if cast_real:
+                # scipy casts the assigned values to the matrix dtype: a real matrix silently
+                # drops the imaginary part (ComplexWarning only)
+                v = _sc(v).real if isinstance(v, Sc) else complex(v).real
             self.entries[(r, c)] = v
 
 
 def _coo(arg1, shape=None, fmt="csr", **k):
     if isinstance(arg1, SM):
-        return SM(arg1.shape, arg1.entries, fmt)
+        return SM(arg1.shape, arg1.entries, fmt, arg1.kind)
     values, (rows, cols) = arg1
+    vkind = kind_of(values)
     vals = _obj(values)
     rows = _np.asarray(rows)
     cols = _np.asarray(cols)
@@ -1059,7 +1117,7 @@ def _coo(arg1, shape=None, fmt="csr", **k):
         key = (int(r), int(c))
         # duplicates are summed on construction
         entries[key] = (entries[key] + v) if key in entries else v
-    return SM(shape, entries, fmt)
+    return SM(shape, entries, fmt, "c" if vkind == "c" else "f")
 
 
 
